@@ -10,10 +10,19 @@ thread_local! {
     static CALLS: Cell<u64> = const { Cell::new(0) };
 }
 pub static TOTAL_CALLS: AtomicU64 = AtomicU64::new(0);
+pub static DEBUG: std::sync::atomic::AtomicBool = std::sync::atomic::AtomicBool::new(false);
 
 #[no_mangle]
 pub unsafe extern "C" fn getrandom(buf: *mut u8, len: usize, _flags: u32) -> isize {
     TOTAL_CALLS.fetch_add(1, Ordering::Relaxed);
+    if DEBUG.load(Ordering::Relaxed) {
+        eprintln!("getrandom len={} flags={} thread={:?} stream={:x}", len, _flags, std::thread::current().id(), STREAM.with(|s| s.get()));
+    }
+    if len == 0 || buf.is_null() {
+        // std probes the availability of the call once per OS process with an empty request: that
+        // must not move the stream of whichever simulated process happens to come first
+        return 0;
+    }
     let mut x = STREAM.with(|s| {
         let v = s.get();
         s.set(v.wrapping_add(0x9E37_79B9_7F4A_7C15));
